@@ -861,6 +861,9 @@ class Gen:
                 i = self.do_pegguard(toks[1:], i + 1, lines)
             elif d == "lemma":
                 i = self.do_lemma(toks[1:], i + 1, lines)
+            elif d == "recurse_visit":
+                self.do_recurse_visit(toks[1:])
+                i += 1
             else:
                 raise SystemExit("unknown directive %s in %s" % (d, self.unit_path))
 
@@ -1074,6 +1077,49 @@ class Gen:
             it.name = kv.get("name", "act")
         self.items.append(it)
         return it
+
+    def do_recurse_visit(self, toks):
+        """//@recurse_visit <dsl file> ... : the derive(Recurse)-generated `recurse_visit` of every type of the listed files,
+        body from the compiler's macro expansion of the current tree, contract from the type definition (gen_recurse.py)."""
+        import expand
+        import gen_recurse
+        pos, kv = parse_kv(toks)
+        only = set(kv["only"].split(",")) if kv.get("only") else None
+        part = [int(x) for x in kv["part"].split("/")] if kv.get("part") else None   # part=k/n: every n-th type, starting at k
+        types = []
+        for rel in pos:
+            s = src(rel)
+            for t in s.all_types():
+                td = gen_recurse.parse_type_def(s, t)
+                if td and (only is None or td["name"] in only):
+                    td["rel"] = rel
+                    td["lines"] = [s.line_of(t["attr_start"]), s.line_of(t["end"] - 1)]
+                    td["def_text"] = s.text[t["attr_start"]:t["end"]]
+                    types.append(td)
+        try:
+            exp = expand.expanded("ironplc-dsl")
+        except expand.ExpandError as e:
+            raise AnchorLost(str(e))
+        if part:
+            types = [td for i_, td in enumerate(types) if i_ % part[1] == part[0] - 1]
+        common, items = gen_recurse.generate(types, exp, None)
+        self.notes.append("recurse_visit bodies are taken from the compiler's macro expansion of the current tree (RUSTC_BOOTSTRAP=1 cargo rustc -p ironplc-dsl -- -Zunpretty=expanded); contracts are generated from the type definitions (fields, containers, #[recurse(ignore)])")
+        self.emit(common)
+        for td, text, rewrites, ens in items:
+            ident = "%s::recurse_visit" % td["name"]
+            it = Item(self.unit + "/" + ident, "method", list(self.props_default), td["rel"], td["lines"], sha(td["def_text"] + text))
+            it.name = "recurse_visit_of_" + td["name"]  # none of these functions calls another (they call the visitor)
+            it.body_text = mask(text)
+            for e in ens:
+                it.clauses["ensures"].append(e)
+            for inv in re.findall(r"^\s+(verif_\w+ (?:is|<=|==)[^\n]*),$", text, re.M):
+                it.clauses["invariant"].append(inv)
+            if "decreases" in text:
+                it.clauses["decreases"] += re.findall(r"decreases ([^\n]*),", text)
+            it.rewrites = rewrites
+            self.items.append(it)
+            self.emit("// ---- %s: derive(Recurse) on %s:%d-%d, body from the macro expansion" % (ident, td["rel"], td["lines"][0], td["lines"][1]))
+            it.gen_lines = self.emit(self.vac(text, ident))
 
     def do_lemma(self, toks, i, lines):
         """//@lemma <name> [props=..] ... //@end : a hand-written proof fn that states a property over the contracts of
